@@ -347,6 +347,23 @@ CHECKS['C19'] = dict(
     assumptions=['crypto/tls and grpc-go are trusted', 'one daemon per test process; calls are judged by before/after probes of its state'],
 )
 
+CHECKS['C20'] = dict(
+    pkg='c20', level='exploration',
+    technique='structure-aware fuzzing: rapid-generated wire requests (hostile field lengths, absent sub-messages, numeric extremes, empty/2000-entry batches, malformed paths) against a crash-isolated instance with a 16 GiB address-space ceiling and a canary client; native go test -fuzz on the same decoder in the thorough tier',
+    level_text=('Sequences of 1-10 requests over all methods of the Signer, Lister, AccountManager and WalletManager handlers (as an authenticated client) and the five key-generation handlers (as a '
+                'non-peer) are built field by field from hostile choices, marshalled to wire bytes and sent to a child process that unmarshals them and calls the real handlers of a real instance '
+                '(real rules store, wallets, a second instance as key-generation peer). The child runs under RLIMIT_AS = 16 GiB. Oracle: the child stays alive, every handler returns a response or an error, '
+                'and after each case a second client can still list and sign correctly. The thorough tier adds coverage-guided native fuzzing over the same structured space.'),
+    level_note='Native fuzzing cannot be pinned to a seed; its saved crasher is the reproducible unit. A child death is reported with the top of the Go crash report.',
+    parts=[part('TestC20', 250, 3000, qshards=2)],
+    rule=('a case is a sequence of 1-10 wire requests; non-trivial iff a request with at least one field outside the well-formed envelope got past the handler\'s own validation '
+          '(answer other than the early-exit DENIED or an error); distinct = sha256 of the case JSON'),
+    essential=['hostile-requests-that-reached-service-code'] + ['method:' + m for m in ['Signer/Sign', 'Signer/Multisign', 'Signer/SignBeaconAttestation', 'Signer/SignBeaconAttestations',
+               'Signer/SignBeaconProposal', 'Lister/ListAccounts', 'AccountManager/Unlock', 'AccountManager/Lock', 'AccountManager/Generate', 'WalletManager/Unlock', 'WalletManager/Lock',
+               'DKG/Prepare', 'DKG/Execute', 'DKG/Commit', 'DKG/Abort', 'DKG/Contribute']],
+    assumptions=['requests reach the handlers as the protobuf decoder would deliver them (wire round trip)', 'authenticated identity injected through the interceptor context key'],
+)
+
 ENGINES = [
     dict(name='rapid-harness', path='/verif/harness', kind_free_text='Go test module (pgregory.net/rapid v1.3.0) compiled against /repo with -tags verif; driver /verif/check shards by seed, merges coverage, writes evidence',
          serves_properties=sorted(CHECKS)),
